@@ -802,6 +802,102 @@ def numpy_case(label, nfields, dtypes, cover=False, axes=None):
     model_jobs.append((inp, f'(fshow {F} {zlist(ts)})', make_checker(inp, o, ts)))
 
 
+def numpy_file_oracle(inp, p, expect, stored, n):
+    """the per-file oracle of the NumPy route: every field of every trace, the stored arrays and the file length"""
+    try:
+        with SgzReader(p) as r:
+            got = np.array([hrow(r.gen_trace_header(i)) for i in range(n)], dtype=np.int64)
+            tfv = {f: np.array(r.get_tracefield_values(f), dtype=np.int64) for f in stored}
+            t1d = {f: np.array(r.get_tracefield_1d(f), dtype=np.int64) for f in stored}
+            r.read_variant_headers()
+            var = {int(k): np.array(v, dtype=np.int64) for k, v in r.variant_headers.items()}
+    except Exception as e:
+        R.violation('oracle', inp, f'NumPy route: reading the written file raised {type(e).__name__}: {e}')
+        return False
+    ok = True
+    want = np.stack([expect[f].reshape(-1) for f in FIELDS], axis=1)
+    if not np.array_equal(got, want):
+        t, j = np.argwhere(got != want)[0]
+        R.violation('oracle', inp, f'NumPy route: gen_trace_header({t})[{FIELDS[j]}] = {got[t, j]}, given {want[t, j]} '
+                                   f'({int((got != want).sum())} values differ)')
+        ok = False
+    for f in stored:
+        if not np.array_equal(tfv[f], expect[f]):
+            R.violation('oracle', inp, f'NumPy route: get_tracefield_values({f}) differs from the array given')
+            ok = False
+        if not np.array_equal(t1d[f].reshape(-1), expect[f].reshape(-1)):
+            R.violation('oracle', inp, f'NumPy route: get_tracefield_1d({f}) differs from the array given')
+            ok = False
+    if sorted(var) != sorted(stored):
+        R.violation('oracle', inp, f'NumPy route: stored arrays {sorted(var)}, given {sorted(stored)}')
+        ok = False
+    for f, v in var.items():
+        if f in expect and not np.array_equal(v, expect[f].reshape(-1)):
+            R.violation('oracle', inp, f'NumPy route: variant_headers[{f}] differs from the array given')
+            ok = False
+    try:
+        sp = SpecFile(p)
+        if os.path.getsize(p) != sp.expected_length() or sp.nha != len(stored):
+            R.violation('oracle', inp, f'NumPy route: file length {os.path.getsize(p)} / {sp.nha} arrays, the header implies '
+                                       f'{sp.expected_length()}, {len(stored)} arrays were given')
+            ok = False
+    except Exception as e:
+        R.violation('oracle', inp, f'NumPy route: the specification decoder cannot parse the file: {type(e).__name__}: {e}')
+        ok = False
+    return ok
+
+
+def numpy_rerun_case(label):
+    """one NumpyConverter object run more than once (same settings, then another bit rate), then a second converter given
+    the SAME caller-owned header dict: every file carries every supplied header array, and the caller's dict is untouched"""
+    rng = random.Random(f'{a.seed}:{label}')
+    shape = rng.choice([(3, 5), (5, 26), (8, 16), (4, 7)])
+    n_il, n_xl = shape
+    n = n_il * n_xl
+    ns = rng.choice([5, 8])
+    data = rnd_cube(rng, (n_il, n_xl, ns))
+    g = np.random.RandomState(rng.randrange(2 ** 31))
+    with_lines = rng.random() < 0.5
+    user = rng.sample([f for f in FIELDS if f not in (189, 193)], rng.choice([2, 3, 5]))
+    il_axis = np.array([7 + 2 * i for i in range(n_il)], dtype=np.int64)
+    xl_axis = np.array([-3 + 5 * i for i in range(n_xl)], dtype=np.int64)
+    truth = {f: g.randint(-2 ** 31, 2 ** 31 - 1, size=shape, dtype=np.int64) for f in user}
+    if with_lines:
+        truth[189] = np.repeat(il_axis, n_xl).reshape(shape)
+        truth[193] = np.tile(xl_axis, n_il).reshape(shape)
+    hd = {f: v.astype(np.int32) for f, v in truth.items()}
+    before = {f: v.copy() for f, v in hd.items()}
+    expect = {f: np.zeros(shape, dtype=np.int64) for f in FIELDS}
+    expect.update(truth)
+    expect[189] = np.repeat(il_axis, n_xl).reshape(shape)
+    expect[193] = np.tile(xl_axis, n_il).reshape(shape)
+    stored = sorted(set(user) | {189, 193})
+    inp = {'case': label, 'shape': shape, 'fields': sorted(int(f) for f in hd), 'seed': a.seed}
+    axes = {} if with_lines else dict(ilines=il_axis.astype(np.int32), xlines=xl_axis.astype(np.int32))
+    runs = [('1st run()', 8), ('2nd run() on the same converter, same settings', 8), ('3rd run() on the same converter, 4 bits per voxel', 4)]
+    try:
+        with NumpyConverter(data, trace_headers=hd, **axes) as c:
+            for k, (what, bpv) in enumerate(runs):
+                p = os.path.join(d, f'np_rerun{k}.sgz')
+                quiet(c.run, p, bits_per_voxel=bpv)
+                numpy_file_oracle(dict(inp, file=what), p, expect, stored, n)
+                R.count('numpy rerun file')
+        what = 'a second converter given the same trace_headers dict'
+        p = os.path.join(d, 'np_rerun_b.sgz')
+        with NumpyConverter(data, trace_headers=hd, **axes) as c:
+            quiet(c.run, p, bits_per_voxel=8)
+        numpy_file_oracle(dict(inp, file=what), p, expect, stored, n)
+        R.count('numpy rerun file')
+    except Exception as e:
+        R.violation('oracle', inp, f'NumPy route ({what}) raised {type(e).__name__}: {e}')
+        return
+    if sorted(hd) != sorted(before) or any(not np.array_equal(hd[f], before[f]) for f in before if f in hd):
+        R.violation('oracle', inp, f'the caller\'s trace_headers dict was changed by the conversion: keys {sorted(int(f) for f in hd)}, '
+                                   f'given {sorted(int(f) for f in before)}')
+    R.case((label, shape, tuple(sorted(int(f) for f in hd))), True, sample=inp)
+    R.count('numpy rerun')
+
+
 # ------------------------------------------------------------------------------------------------ the plan
 def plan():
     cases = []
@@ -845,6 +941,10 @@ try:
             nf = rng.choice([0, 0, 1, 3])
             if only is None or f'numpy-axes-{idx}-{rep}' in only:
                 numpy_case(f'numpy-axes-{idx}-{rep}', nf, NP_DTYPES, axes=(how, other) if rep % 2 == 0 else (other, how))
+    # ---- one converter object run several times / one caller-owned header dict given to two converters
+    for idx in range((2 if QUICK else 6) * (2 if a.search else 1)):
+        if only is None or f'numpy-rerun-{idx}' in only:
+            numpy_rerun_case(f'numpy-rerun-{idx}')
     # ---- header keys that are TraceField codes but not fields of the 89-entry table must be refused, not written (D36)
     if only is None:
         for code in sorted(set(int(v) for v in segyio.tracefield.keys.values()) - set(FIELDS)):
